@@ -124,9 +124,15 @@ func (o *FSObs) hook(op, path string, off int64, data []byte) (bool, int, error)
 			return false, 0, nil
 		}
 	}
+	if os.Getenv("VERIF_FSLOG") != "" {
+		fmt.Fprintf(os.Stderr, "fs %s %s off=%d len=%d\n", op, rel, off, len(data))
+	}
 	if o.Fault != nil && op != "close" {
 		if fail, partial := o.Fault(&m); fail {
 			o.Injected++
+			if os.Getenv("VERIF_FSLOG") != "" {
+				fmt.Fprintf(os.Stderr, "fs   ^ injected fault, partial=%d\n", partial)
+			}
 			if op == "write" && partial > 0 {
 				if partial > len(data) {
 					partial = len(data)
